@@ -6,6 +6,7 @@ import (
 	"errors"
 	"fmt"
 	"io"
+	"os"
 )
 
 // ErrInjected is the harness sentinel error.
@@ -91,6 +92,9 @@ type ScriptReader struct {
 	done     bool
 	// Recovered is set once a transient error (Plan.Recover) has been returned.
 	Recovered bool
+	// TermCalls counts Read calls (with room in p) that arrived after every byte before ErrAt had
+	// been delivered and that therefore returned (0, terminal error): demand beyond the data.
+	TermCalls int
 }
 
 // NewScriptReader builds a reader; the plan is normalised against data.
@@ -119,6 +123,9 @@ func (s *ScriptReader) Read(p []byte) (int, error) {
 		if s.Plan.Recover {
 			s.Recovered = true
 		}
+		if len(p) > 0 {
+			s.TermCalls++
+		}
 		return 0, s.Plan.Err()
 	}
 	if len(p) == 0 {
@@ -139,6 +146,7 @@ func (s *ScriptReader) Read(p []byte) (int, error) {
 		if s.Plan.Recover {
 			s.Recovered = true
 		}
+		s.TermCalls++
 		return 0, s.Plan.Err()
 	}
 	n := s.Plan.Chunks[s.i%len(s.Plan.Chunks)]
@@ -170,6 +178,10 @@ func (s *ScriptReader) Read(p []byte) (int, error) {
 type ScriptWriter struct {
 	FailAt int
 	Short  int // bytes accepted by the failing call (clamped to len(p)-1... or 0 for empty p)
+	// ErrKind selects the error value of the failing call (and of every later call): 0 ErrSink,
+	// 1 a net.Error-like value with Timeout() and Temporary() true, 2 os.ErrDeadlineExceeded,
+	// 3 a value with only Temporary() true, 4 io.ErrShortWrite, 5 io.EOF.
+	ErrKind int
 
 	Writes [][]byte
 	Calls  int
@@ -177,16 +189,50 @@ type ScriptWriter struct {
 	After  int // calls received after the failure
 }
 
+// SinkErr returns the error value for a sink error kind.
+func SinkErr(kind int) error {
+	switch kind {
+	case 1:
+		return errTimeout
+	case 2:
+		return os.ErrDeadlineExceeded
+	case 3:
+		return errTemporary
+	case 4:
+		return io.ErrShortWrite
+	case 5:
+		return io.EOF
+	}
+	return ErrSink
+}
+
+type netLikeErr struct {
+	msg                string
+	timeout, temporary bool
+}
+
+func (e *netLikeErr) Error() string   { return e.msg }
+func (e *netLikeErr) Timeout() bool   { return e.timeout }
+func (e *netLikeErr) Temporary() bool { return e.temporary }
+
+var (
+	errTimeout   error = &netLikeErr{"verif: sink i/o timeout", true, true}
+	errTemporary error = &netLikeErr{"verif: sink temporarily unavailable", false, true}
+)
+
+// Err is the error value this sink fails with.
+func (w *ScriptWriter) Err() error { return SinkErr(w.ErrKind) }
+
 func (w *ScriptWriter) Write(p []byte) (int, error) {
 	if w.Failed {
 		w.After++
-		return 0, ErrSink
+		return 0, w.Err()
 	}
 	w.Calls++
 	if w.FailAt > 0 && w.Calls == w.FailAt {
 		w.Failed = true
 		if w.Short == -1 {
-			return len(p), ErrSink // everything was taken, and the sink still reports an error
+			return len(p), w.Err() // everything was taken, and the sink still reports an error
 		}
 		n := w.Short
 		if n >= len(p) {
@@ -195,10 +241,37 @@ func (w *ScriptWriter) Write(p []byte) (int, error) {
 		if n < 0 {
 			n = 0
 		}
-		return n, ErrSink
+		return n, w.Err()
 	}
 	w.Writes = append(w.Writes, append([]byte(nil), p...))
 	return len(p), nil
+}
+
+// DecoySink is a ScriptWriter that also has the method set of zero-copy connection writers and of
+// buffered writers. Only Write is the io.Writer contract: bytes handed to any of the other methods are
+// accepted and dropped (and counted), so they are missing from what the sink received through Write.
+type DecoySink struct {
+	*ScriptWriter
+	Extra int
+}
+
+func (d *DecoySink) WriteBinary(b []byte) (int, error) { d.Extra++; return len(b), nil }
+func (d *DecoySink) WriteString(s string) (int, error) { d.Extra++; return len(s), nil }
+func (d *DecoySink) WriteDirect(b []byte, _ int) error { d.Extra++; return nil }
+func (d *DecoySink) Malloc(n int) ([]byte, error)      { d.Extra++; return make([]byte, n), nil }
+func (d *DecoySink) WriteByte(byte) error              { d.Extra++; return nil }
+func (d *DecoySink) Flush() error                      { d.Extra++; return nil }
+func (d *DecoySink) MallocLen() int                    { return 0 }
+func (d *DecoySink) Available() int                    { return 1 << 20 }
+func (d *DecoySink) ReadFrom(io.Reader) (int64, error) { d.Extra++; return 0, nil }
+func (d *DecoySink) WriteTo(io.Writer) (int64, error)  { d.Extra++; return 0, nil }
+func (d *DecoySink) Writev(bs ...[]byte) (int, error) {
+	d.Extra++
+	n := 0
+	for _, b := range bs {
+		n += len(b)
+	}
+	return n, nil
 }
 
 // Bytes returns everything successfully written.
@@ -279,3 +352,62 @@ func (r *StrictReader) ReadLen() int { return r.Pos - r.Rel }
 
 // Release ...
 func (r *StrictReader) Release(e error) error { r.Rel = r.Pos; return nil }
+
+// VirtualReader implements the bufiox.Reader method set over a stream of Size bytes of which only the
+// first len(Head) are stored; the rest reads as zeros. Skip only moves the cursor, so values whose
+// encoded size is many GiB can be presented to stream skippers without memory. Requests that would
+// have to materialise more than 64 KiB of virtual bytes fail the test by panicking.
+type VirtualReader struct {
+	Head []byte
+	Size int64
+	Pos  int64
+	Rel  int64
+}
+
+var virtualZeros = make([]byte, 64<<10)
+
+func (r *VirtualReader) get(n int, advance bool) ([]byte, error) {
+	if n < 0 {
+		return nil, errors.New("verif: negative count")
+	}
+	if r.Pos+int64(n) > r.Size {
+		return nil, io.EOF
+	}
+	var out []byte
+	switch {
+	case r.Pos+int64(n) <= int64(len(r.Head)):
+		out = r.Head[r.Pos : r.Pos+int64(n)]
+	case n > len(virtualZeros):
+		panic(fmt.Sprintf("VirtualReader: request for %d virtual bytes (only Skip may cross them)", n))
+	case r.Pos >= int64(len(r.Head)):
+		out = virtualZeros[:n]
+	default:
+		out = append(append([]byte(nil), r.Head[r.Pos:]...), virtualZeros[:n-(len(r.Head)-int(r.Pos))]...)
+	}
+	if advance {
+		r.Pos += int64(n)
+	}
+	return out, nil
+}
+
+func (r *VirtualReader) Next(n int) ([]byte, error) { return r.get(n, true) }
+func (r *VirtualReader) Peek(n int) ([]byte, error) { return r.get(n, false) }
+func (r *VirtualReader) Skip(n int) error {
+	if n < 0 {
+		return errors.New("verif: negative count")
+	}
+	if r.Pos+int64(n) > r.Size {
+		return io.EOF
+	}
+	r.Pos += int64(n)
+	return nil
+}
+func (r *VirtualReader) ReadBinary(bs []byte) (int, error) {
+	b, err := r.get(len(bs), true)
+	if err != nil {
+		return 0, err
+	}
+	return copy(bs, b), nil
+}
+func (r *VirtualReader) ReadLen() int          { return int(r.Pos - r.Rel) }
+func (r *VirtualReader) Release(e error) error { r.Rel = r.Pos; return nil }
